@@ -53,7 +53,13 @@ def generate(rng, tier, rep):
                 k = rng.choice(parked)
                 parked.remove(k)
                 specs.append({'api': None, 'release': [k]})
-            tests.append({'layer': None, 'threads': specs})
+            T = {'layer': None, 'threads': specs}
+            r = rng.random()
+            if r < 0.15:
+                T['body'] = 'skip'          # the test starts its threads and then skips itself: a leak is a leak
+            elif r < 0.25:
+                T['body'] = rng.choice(['fail', 'error'])
+            tests.append(T)
         opts = []
         r = rng.random()
         if r < 0.25:
